@@ -63,8 +63,13 @@ def generate(seed, tier):
         for e, cur in zip(econs, S['swarm'].sample(['kr', 'Kr', 'KR', 'kR'], len(econs))):
             if e['kind'] in ('closed', 'closed_fin', 'capitalists', 'pc'):
                 e['currency'] = cur
-    return {'kind': 'ECON', 'twin': 'embed', 'family': 'embed', 'seed': seed, 'tight': tight, 'T': T,
+    case = {'kind': 'ECON', 'twin': 'embed', 'family': 'embed', 'seed': seed, 'tight': tight, 'T': T,
             'economies': econs, 'external': S['swarm'].choice([None, None, 'first', 'last'])}
+    # construction histories: a diagnostic dump after each economy is declared, and names requested (and used in a new
+    # equation) only once every economy of the model exists
+    case['loginfo'] = [i for i in range(len(econs)) if S['swarm'].random() < 0.4] if S['swarm'].random() < 0.4 else []
+    case['late'] = S['swarm'].random() < 0.3
+    return case
 
 
 def list_paths(case):
@@ -89,6 +94,14 @@ def simplify(case):
                 c['family'] = fam
                 yield c
     else:
+        if case.get('late'):
+            c = core.deep_copy(case)
+            c['late'] = False
+            yield c
+        for i in (case.get('loginfo') or []):
+            c = core.deep_copy(case)
+            c['loginfo'] = [j for j in case['loginfo'] if j != i]
+            yield c
         if case.get('external'):
             c = core.deep_copy(case)
             c['external'] = None
@@ -308,6 +321,25 @@ def zone_isolation(sess, mh, codes):
     return None
 
 
+def late_ops(e, ops):
+    """Ops of one economy issued after everything else is declared: ask a household for the name of its financial
+    assets and use it in a new (reporting) equation of the government."""
+    hh = gov = None
+    for o in ops:
+        if o['op'] == 'Builder':
+            hh = o['id'] + '.HH'
+            gov = o['id'] + ('.TRE' if o['which'] == 'PC' else '.GOV')
+        elif o['op'] in ('Household', 'HouseholdWithExpectations') and hh is None:
+            hh = o['id']
+        elif o['op'] in ('ConsolidatedGovernment', 'Treasury') and gov is None:
+            gov = o['id']
+    if hh is None or gov is None:
+        return []
+    nm = 'late_%s_F' % e['code']
+    return [{'op': 'GetVariableName', 'sector': hh, 'var': 'F', 'save_as': nm},
+            {'op': 'AddVariable', 'sector': gov, 'name': 'HHWEALTH', 'eqn': '{name:%s}' % nm}]
+
+
 def execute_embed(case, stats):
     T, tight = case['T'], case['tight']
     viol = []
@@ -315,12 +347,23 @@ def execute_embed(case, stats):
     if case.get('external') == 'first':
         joint.append({'op': 'ExternalSector', 'id': 'ext', 'model': 'm0'})
     parts = []
-    for e in case['economies']:
-        ops = economy_ops(e, T, tight, False)
+    lates = []
+    for i, e in enumerate(case['economies']):
+        dump = [{'op': 'LogInfo', 'model': 'm0'}] if i in (case.get('loginfo') or []) else []
+        ops = economy_ops(e, T, tight, False) + dump
         parts.append(ops)
         joint += ops
+        lates.append(late_ops(e, ops) if case.get('late') else [])
     if case.get('external') == 'last':
         joint.append({'op': 'ExternalSector', 'id': 'ext', 'model': 'm0'})
+    for lt in lates:
+        joint += lt
+    for ops, lt in zip(parts, lates):
+        ops.extend(lt)
+    if case.get('late'):
+        stats['probes']['name_requested_after_all_economies_declared'] = 1
+    if case.get('loginfo'):
+        stats['probes']['diagnostic_dump_between_economies'] = 1
     joint += knob_ops(T, tight) + [{'op': 'main', 'model': 'm0'}]
     sj, rj = econprops.run_and_series(joint)
     (oj, mj), xj = rj['m0']
